@@ -1,5 +1,5 @@
 CHECK = dict(
-    level="fault_enumeration", engine="F",
+    level="fault_enumeration", engine="F+T",
     technique="exhaustive fault-point enumeration: cancel injected at every k-th IsCancelled check of every program (hook H2), outcome compared with the uncancelled run",
     level_text=("For 26 context-observed programs (deferred trees incl. shared sub-expressions and shared impl_, BatchBoolean, Refine*, Hull, "
                 "Minkowski*, FromMeshGL, Smooth, LevelSet) the number N of cancellation checks of the uncancelled run is measured and the program "
@@ -8,11 +8,15 @@ CHECK = dict(
                 "from the operands with a fresh context must give the reference result; a cancelled context must short-circuit later evaluations; "
                 "progress samples taken at every check must be non-decreasing, <= 1 and end at 1."),
     level_note=("Trusted: hook H2 (the probe sits inside IsCancelled, the only reader of the flag, so 'Cancel() from another thread at any moment' "
-                "is exactly 'check k is the first to see it'); compiler; lib/canon.h fingerprints. Serial build here; the parallel interleavings of "
-                "the same checks are C04/C06's engines."),
-    runs=[S("seq-fast", quick=300, thorough=2400, workers=8)],
+                "is exactly 'check k is the first to see it'); compiler; lib/canon.h fingerprints. Two builds: the serial library, and MANIFOLD_PAR=1 on the modelled TBB runtime (engine T) under its "
+                "default schedule with kSeqThreshold=4, par_threshold=0, gate_override=0, where every chunk of a cancellable parallel loop is a check site; "
+                "other schedules of the same checks are not enumerated here."),
+    runs=[S("seq-fast", quick=600, thorough=2400, workers=8),
+          # the same enumeration on the parallel build (modelled TBB runtime, 2 workers, default schedule, every gated loop parallel):
+          # each chunk of a cancellable parallel loop is a check site of its own there (160k sites instead of 30k)
+          S("par-model", quick=2400, thorough=5400, workers=16, case_timeout=600)],
     rule=("cases = (program, k) for every k in 1..N(program); distinct = (program,k) pairs; non-trivial = runs that ended Cancelled (the flag was "
           "observed before completion). The reference phase runs each program twice uncancelled (determinism, progress monotone / final == 1)."),
-    bounds=dict(quick="24 programs, every check index (about 28k injected runs)", thorough="same programs with larger Minkowski operands (about 36k injected runs)"),
+    bounds=dict(quick="26 programs, every check index: 30k injected runs on the serial build + 161k on the parallel build (default schedule)", thorough="same programs with larger Minkowski operands (about 36k injected runs)"),
     assumptions=COMMON_ASSUME + ["relaxed-memory reorderings of the cancel flag and progress counters are not modelled (single thread here)"],
 )
